@@ -35,8 +35,10 @@ static int inside(uint32_t a, size_t n)
     uint64_t lo = (uint64_t)C.place, hi = (uint64_t)C.place + (C.alg == 3 ? 4 : 2) + (uint64_t)C.n;
     return (uint64_t)a >= lo && (uint64_t)a + n <= hi;
 }
-static size_t m_read(void *dst, uint32_t a, size_t n)
+static uint32_t MB = 0;   /* medium base (event mbase): the library sees medium offset x at address x + MB */
+static size_t m_read(void *dst, uint32_t a0, size_t n)
 {
+    uint32_t a = a0 - MB;
     calls++;
     if (!inside(a, n)) { oob++; }
     if ((uint64_t)a + n > msize) { oob++; return 0; }
@@ -50,8 +52,9 @@ static size_t m_read(void *dst, uint32_t a, size_t n)
     return n;
 }
 static long long writes;
-static size_t m_write(uint32_t a, const void *src, size_t n)
+static size_t m_write(uint32_t a0, const void *src, size_t n)
 {
+    uint32_t a = a0 - MB;
     calls++;
     if (!inside(a, n)) { oob++; }
     if ((uint64_t)a + n > msize) { oob++; return 0; }
@@ -87,7 +90,7 @@ static void open_instance(void)
     persistent_init(&st, (size_t)C.n, m_read, m_write);
     if (C.alg == 2) persistent_sum16(&st, crc_cb, 0);
     else if (C.alg == 3) persistent_sum32(&st, sum32_cb, 7);
-    persistent_place(&st, (uint32_t)C.place);
+    persistent_place(&st, (uint32_t)C.place + MB);
     if (aux) { xfree(aux); aux = NULL; }
     if (C.aux != 9999) {
         aux = C.aux ? xblock((size_t)C.aux) : xblock0();
@@ -103,8 +106,10 @@ void adapter_exec(Ev *ev)
         if (medium) { xfree(medium); medium = NULL; }
         if (aux) { if (C.aux) xfree(aux); else xfree0(aux); aux = NULL; }
         msize = 0; memset(&arm, 0, sizeof arm); memset(&C, 0, sizeof C);
+        MB = 0;
         return;
     }
+    if (ev_is(ev, "mbase")) { MB = ((uint32_t)ev->a[0] << 16) | (uint32_t)ev->a[1]; obs(ev, 0); return; }
     if (ev_is(ev, "cfg")) {
         if (medium) xfree(medium);
         if (aux) { if (C.aux) xfree(aux); else xfree0(aux); aux = NULL; }
